@@ -238,6 +238,26 @@ def check_unravel_inclusive(m: Model, r, rid: str) -> None:
     rng = [n for n in ast.walk(un.node) if isinstance(n, ast.Call) and ast.unparse(n.func) == "range"]
     r.check(len(rng) == 1 and m.mtext(un, rng[0]).replace(" ", "") == "range(_L,_L+1)", rid, f"{un.qualname}#inclusive",
             f"range elements come from `{ast.unparse(rng[0]) if rng else None}`; 'a-b' includes b", loc=un.loc)
+    # every element of the range reaches the result: the expansion loop never ends early and adds each element (a membership test is the only harmless guard)
+    loops = [n for n in ast.walk(un.node) if isinstance(n, ast.For) and rng and any(x is rng[0] for x in ast.walk(n.iter))]
+    if len(loops) == 1 and isinstance(loops[0].target, ast.Name):
+        lp, v = loops[0], loops[0].target.id
+        adds = [c for c in ast.walk(lp) if isinstance(c, ast.Call) and isinstance(c.func, ast.Attribute) and c.func.attr == "add" and [ast.unparse(a) for a in c.args] == [v]]
+        early = [type(x).__name__ for s in lp.body for x in ast.walk(s) if isinstance(x, (ast.Break, ast.Return, ast.Raise))]
+        guarded = []
+        if len(adds) == 1:
+            rs = ast.unparse(adds[0].func.value)
+            for t, pol in path_condition(lp, adds[0]):
+                txt = ast.unparse(t).replace(" ", "")
+                if not ((txt == f"{v}notin{rs}" and pol) or (txt == f"{v}in{rs}" and not pol)):
+                    guarded.append(ast.unparse(t))
+            conts = [x for s in lp.body for x in ast.walk(s) if isinstance(x, ast.Continue)]
+            for c in conts:
+                if not any((ast.unparse(t).replace(" ", "") == f"{v}in{rs}" and pol) for t, pol in path_condition(lp, c)):
+                    guarded.append("continue")
+        r.check(len(adds) == 1 and not early and not guarded, rid, f"{un.qualname}#expands-every-element",
+                f"the expansion loop of 'a-b' does not add every element (adds: {len(adds)}, early exits: {early}, guards: {guarded}): with overlapping entries such as "
+                "'0x10,0x08-0x20' part of a listed range is silently left out", loc=un.loc)
 
 
 def accepts_domain(m: Model, qual: str, values, param: str | None = None) -> list:
